@@ -138,6 +138,11 @@ pub struct Case {
     pub hops: Vec<Hop>,
     /// also serialise the whole collection through `Props::as_map()`
     pub as_map: bool,
+    /// the call site is `emit::emit!(rt: .., "c19 {v}", <attr> v: x)` (value interpolated in the
+    /// template, event built by the macro, emitted through a `Runtime`, read inside the emitter)
+    /// instead of `emit::props! { <attr> v: x }`
+    #[serde(default)]
+    pub emit_macro: bool,
 }
 
 pub const STATICS: [&str; 8] = ["", "static text", "info", "0000000000000001", "caf\u{e9} \u{1F600}", "line\nbreak\t\"q\"", "1.5", "null"];
@@ -379,7 +384,7 @@ pub fn expect_prim(x: &Orig, kind: Kind, typed: Option<Typed>, mode: Mode, is_st
     // out of an `as_display` capture) and every capture of a `str` (which emit deliberately stores
     // as the string itself under every attribute) may legitimately behave like the default capture.
     let fmt_mode = matches!(mode, Mode::Display | Mode::DisplayI | Mode::Debug | Mode::DebugI);
-    if fmt_mode && (mode.inspect() || is_str_slice) {
+    if (mode.inspect() && !matches!(mode, Mode::ValueI)) || (fmt_mode && is_str_slice) {
         let mut alt = Expect::new("v", kind);
         default(&mut alt);
         e.alt = Some((Box::new(alt), if is_str_slice { "dontcare:str-captured-as-string-under-fmt-attribute" } else { "dontcare:inspect-captures-typed-primitive" }));
@@ -570,9 +575,27 @@ fn eval_json(j: &JsonExpect, o: &Obs, ev: &mut Eval, at: &str) {
         Err(_) => false,
     };
     if !ok {
-        // D17: exactly "captured via sval, read via serde, a non-empty sequence nested in another container"
-        let sig = if j.by == Fw::Sval && j.nested_seq { D17 } else { sig };
-        ev.fail(sig, format!("{at}: the other framework renders the captured value as {other:?}, the capturing framework renders the original as {reference:?}"));
+        // D17: exactly "captured via sval, read via serde, a non-empty sequence nested in another
+        // container, serde_json's output is not the document" AND a serde serializer that ignores the
+        // sequence length hint does see the right document (so the wrong hint is all that is wrong).
+        let mut sig = sig;
+        let mut extra = String::new();
+        if j.by == Fw::Sval && j.nested_seq {
+            let hint_only = match &o.serde_nohint {
+                Some(Ok(text)) => match (json::parse(text), json::parse(reference)) {
+                    (Ok(x), Ok(y)) => json::same_with(&x, &y, true),
+                    _ => false,
+                },
+                _ => false,
+            };
+            if hint_only {
+                sig = D17;
+            } else {
+                sig = "sval-capture/serde-read/structure-mismatch";
+                extra = format!("; a length-hint-insensitive serde writer renders it as {:?}", o.serde_nohint);
+            }
+        }
+        ev.fail(sig, format!("{at}: the other framework renders the captured value as {other:?}, the capturing framework renders the original as {reference:?}{extra}"));
     }
 }
 
@@ -721,5 +744,11 @@ pub fn judge(exp: &Expect, hops: &[Hop], reads: &[Read], cx: &mut Cx) -> Res {
 }
 
 pub fn want_for(case: &Case) -> Want {
-    Want { ids: matches!(case.subj, Subj::Wk(_)), as_map: case.as_map }
+    let nohint = matches!(case.mode, Mode::Sval | Mode::SvalI)
+        && match &case.subj {
+            Subj::Node(spec) => spec.build().shape().nested_seq,
+            Subj::Derived(d) => crate::derived::nested_seq(d),
+            _ => false,
+        };
+    Want { ids: matches!(case.subj, Subj::Wk(_)), as_map: case.as_map, nohint }
 }
